@@ -471,7 +471,8 @@ class C07(vlib.PropertyCheck):
         ctx['cov']['op_histogram'] = ops
         ctx['cov']['ctor_arg_size_histogram'] = sizes
         ctx['cov']['history_length_histogram'] = lens
-        ctx['cov']['exhaustive'] = ('index/count pairs in -len-2..len+2 for splice, splice_from_ptr, subbuff, subbuff_to_ptr on sequences of '
+        ctx['cov']['exhaustive'] = True
+        ctx['cov']['exhaustive_strata'] = ('index/count pairs in -len-2..len+2 for splice, splice_from_ptr, subbuff, subbuff_to_ptr on sequences of '
                                     'length 0..3 (quick) / 0..5 (thorough); cmp/ncmp/cmp_with_ptr on all pairs of sequences over {0,1,255} up to '
                                     'length 2 (quick) / 3 (thorough); read schedules up to 2 (quick) / 3 (thorough) events over '
                                     '{D3, S1, D4096, D4097, S4095, EINTR, EOF, Err, D0}; all 256 byte values for index/rindex/find/clear')
